@@ -109,6 +109,12 @@ CALLED = [
     "Select(ds, lambda {A}: (lambda {P}, /: Select({A}.so_jets, lambda {C}, /: {C}.i_pt + {P}))({A}.i_eta))",
     "Select(ds, lambda {A}: (lambda {P}: Select({A}.so_jets, lambda *{P}: {P}[0].i_pt))({A}.i_eta))",
     "Select(ds, lambda {A}: (lambda {P}: Select({A}.so_jets, lambda {C}, *, {P}=1: {C}.i_pt + {P}))({A}.i_eta))",
+    # operators whose lambda takes its argument in another way than by one plain positional parameter, or whose source is starred
+    "SelectMany(SelectMany(ds, lambda *{A}: {A}[0].so_jets), lambda {B}: {B}.so_trk)",
+    "Select(Select(ds, lambda {A}, /: {A}.o_p), lambda {B}: {B}.i_pt)",
+    "Where(Select(ds, lambda *{A}: {A}[0].i_pt), lambda {B}: {B} > 1)",
+    "Select(Where(ds, lambda {A}, {B}=2: {A}.i_pt > {B}), lambda {A}: {A}.i_eta)",
+    "Select(ds, lambda {A}: Count(Select(*({A}.so_jets,), lambda {B}: {B})) + Count(Where(*({A}.so_jets,), lambda {B}: True)))",
     # operators that get their lambda by keyword
     "Where(ds, filter=lambda {A}: {A}.i_pt > 1)",
     "Select(Select(ds, f=lambda {A}: {A}.o_p), lambda {B}: {B}.i_pt)",
